@@ -390,6 +390,13 @@ fn compare_values(a: &Value, b: &Value) -> Ordering {
         (Value::Int64(a), Value::Int64(b)) => a.cmp(b),
         (Value::Float64(a), Value::Float64(b)) => a.partial_cmp(b).unwrap_or(Ordering::Equal),
         (Value::String(a), Value::String(b)) => a.cmp(b),
+        // Mixed numeric columns order by value, as in the pull-based SortOperator
+        (Value::Int64(a), Value::Float64(b)) => {
+            (*a as f64).partial_cmp(b).unwrap_or(Ordering::Equal)
+        }
+        (Value::Float64(a), Value::Int64(b)) => {
+            a.partial_cmp(&(*b as f64)).unwrap_or(Ordering::Equal)
+        }
         _ => Ordering::Equal,
     }
 }
